@@ -57,7 +57,7 @@ Section Run.
   }.
 
   Definition stop (d : drv) (o : outcome) : run_result :=
-    mkRR (d_emitted d ++ takeN (d_off d) (d_buf d)) o (rev (d_trace d)).
+    mkRR (d_emitted d ++ takeN (d_off d) (d_buf d)) o (rev_append (d_trace d) []).
 
   (* after NeedsMoreOutput: hand the filled part to the consumer, take the next buffer *)
   Definition drain (caps : list N) (d : drv) : drv :=
